@@ -19,7 +19,6 @@ NOT_APPLICABLE = {
     'C13': 'check not built yet in this round (planned, see DESIGN.md section 5)',
     'C14': 'check not built yet in this round (planned, see DESIGN.md section 5)',
     'C15': 'check not built yet in this round (planned, see DESIGN.md section 5)',
-    'C16': 'check not built yet in this round (planned, see DESIGN.md section 5)',
     'C18': 'check not built yet in this round (planned, see DESIGN.md section 5)',
     'C19': 'check not built yet in this round (planned, see DESIGN.md section 5)',
     'C20': 'check not built yet in this round (planned, see DESIGN.md section 5)',
@@ -45,4 +44,24 @@ PROPS['C17'] = dict(
     exhaustive_counter=None,
     assumptions=['ASan red zones detect only adjacent out-of-bounds accesses',
                  'SymbolBitDecoder is excluded from truncation/over-read probes (caller contract, not reachable from a decode entry point)'],
+)
+
+PROPS['C16'] = dict(
+    title='Prediction-correction transforms are exactly invertible for any prediction',
+    technique='runtime monitoring: inverse-identity and correction-interval oracle over exhaustive small domains and boundary-biased samples; UBSan/ASan on the header-only transforms',
+    level='exploration',
+    level_text=('Runs the real encoding and decoding transforms (instantiated from /repo headers) on every (min,max,orig,pred) tuple of all wrap ranges '
+                'of width <= 40 inside [-50,50] (plus int32 extremes as predictions), on every pair of canonical octahedral coordinates for q=2..5 '
+                '(q=6 in the thorough tier), and on boundary-biased random tuples for 32-bit wrap ranges (at INT_MIN/INT_MAX, widest allowed) and q=7..30. '
+                'The monitor checks decode(encode)=identity and that each correction lies in the announced interval, under ASan+UBSan.'),
+    level_note='Exhaustive only for the small domains named; 32-bit ranges and q>=7 are sampled. Canonical inputs come from an independent re-statement of the canonicalisation rule which is cross-checked against the library.',
+    rule=('cases 0..4140: one wrap range [min,min+w], min in -50..50, w in 0..40, all orig x all pred in a +-3w window plus int32 extremes; next cases: one (q, pred row) '
+          'of the canonical octahedral grid, all canonical origs; remaining cases alternate 3000 (thorough 20000) random tuples of one random 32-bit wrap range / '
+          'one q in 7..30. Non-trivial = at least one tuple checked; distinct = hash of the case descriptor (range / q,row / q,rng).'),
+    runs=[dict(variant='asan', harness='c16_transforms', cases=dict(quick=4141 + 3 + 7 + 15 + 31 + 6000, thorough=4141 + 3 + 7 + 15 + 31 + 63 + 60000))],
+    min_nontrivial=4000,
+    require_counters={'wrap_small_ranges': 4141, 'octa_exhaustive_rows/q=5': 31, 'wrap_random_ranges/*near-int-min': 50,
+                      'wrap_random_ranges/*near-int-max': 50, 'wrap_random_ranges/huge*': 50, 'octa_sampled_cases/q=30': 10},
+    exhaustive_counter=None,
+    assumptions=['int32 arithmetic of the target (x86-64, two\'s complement)'],
 )
